@@ -767,6 +767,11 @@ def get_time_maps_from_alignment(
             for u in score_unique_onsets
         ]
 
+        # onsets at which only ornaments are matched have no performed time
+        keep = np.array([len(u) > 0 for u in score_unique_onset_idxs], dtype=bool)
+        score_unique_onsets = score_unique_onsets[keep]
+        score_unique_onset_idxs = [u for u in score_unique_onset_idxs if len(u) > 0]
+
     else:
         score_unique_onset_idxs = [
             np.where(score_onsets == u)[0] for u in score_unique_onsets
